@@ -364,3 +364,11 @@ Example read_quote_example :
   /\ quote_if_needed true QSingle [97; 39; 98] = [39; 97; 39; 92; 39; 39; 98; 39]
   /\ force_quote true QDouble [97; 34; 9] = [36; 39; 97; 34; 92; 116; 39].
 Proof. vm_compute. repeat split; reflexivity. Qed.
+
+(** * The code as it is now (regenerated flag): unconditional *)
+Lemma positional_now : positional_escaping = true.
+Proof. reflexivity. Qed.
+
+Theorem read_quote_current p o s : avoid_nl o = false -> no_nul s ->
+  read_word p (quote positional_escaping o s) = Some s.
+Proof. rewrite positional_now. apply read_quote. Qed.
